@@ -5,7 +5,8 @@ from contracts import pycdlibio as P
 
 
 def units(tier):
-    scripts = sorted(F.SCRIPTS) + F.random_names(tier)
+    # bridge histories: every entry named in ISO9660, Rock Ridge, Joliet and UDF at once; the UDF side decoded by the independent UDF reader
+    scripts = sorted(F.SCRIPTS) + F.random_names(tier) + F.random_bridge_names(tier)
     return [Unit(F.Mastered, {'script': s}) for s in scripts] + [Unit(F.Reopened, {'script': s, 'edit': False}) for s in scripts] + \
         [Unit(D.RecalcStep), Unit(D.WriterStep), Unit(P.CopyDataYield), Unit(P.InodeOpen, {'location': 1}), Unit(P.InodeOpen, {'location': 2}),
          Unit(P.InodeOpen, {'location': 2, 'managed': True}), Unit(D.RecalcWhole, {'n': 3, 'index': 1})] + \
@@ -24,13 +25,13 @@ META = {
     ],
     'out_of_reach': [
         'arbitrary edit histories and tree shapes: the tree-induction step (the records reachable by a reader are exactly the ones the API built) is only exercised on the scripts',
-        'UDF namespace (C10) is not decoded by the independent reader in this check',
+        'UDF namespace: decoded by the independent UDF reader on the bridge histories only (C10 has the UDF scripts)',
     ],
     'bounded': ['8 edit scripts + 9 random edit histories (thorough: 108, moved by VERIF_SEED), file sizes 0..5000 bytes'],
 }
 
 MANIFEST = {
     'level_text': 'Bounded scenarios executed by the verifier on the real code with SYMBOLIC file contents + the unbounded function-level contracts they rest on: each of eight edit scripts and of nine random edit histories (108 in the thorough tier) is mastered by the real new/add_*/rm_*/write_fp code inside pyvc; an independent ECMA-119/Joliet/RRIP reader must find exactly the implied ISO9660, Joliet and Rock Ridge trees, names, types, link counts, symlink targets, hidden flags, every file byte for byte, valid structure, disjoint allocation and exact length; the library must reopen its image, show the same and re-master it identically (edits of reopened images: C02). One defect found and repaired (K38: ".." length).',
-    'level_note': 'Scenario part is bounded (7 scripts) but symbolic in all file contents; trusted: pyvc executing ~15k lines of real code per scenario (mastering output cross-checked byte-identical with CPython), the independent reader, pinned clock. Not decided: arbitrary histories, UDF view.',
+    'level_note': 'Scenario part is bounded (7 scripts) but symbolic in all file contents; trusted: pyvc executing ~15k lines of real code per scenario (mastering output cross-checked byte-identical with CPython), the independent reader, pinned clock. Not decided: arbitrary histories.',
     'design_ref': 'DESIGN.md section 4 C01',
 }
